@@ -395,7 +395,8 @@ class Signal(object):
             The number of points over which values are averaged
         """
 
-        mot = self.values
+        mot = np.array(self.values, dtype=float)  # average the original samples, not the already averaged ones
+        self._values = np.zeros_like(mot)
 
         for i in range(len(mot)):
             if i < width / 2:
